@@ -747,6 +747,23 @@ func (r *rewriter) exprs(root ast.Node) {
 			if t == nil {
 				return true
 			}
+			if _, isSlice := t.Underlying().(*types.Slice); isSlice {
+				// slice element access: the element is the shared memory
+				if noReplace[n] {
+					return true
+				}
+				if tv, ok := r.info.Types[n]; !ok || !tv.IsValue() {
+					return true
+				}
+				fn := "Rd"
+				if writeCtx[n] {
+					fn = "Wr"
+				}
+				r.usedHooks = true
+				r.stats["slice-element-access"]++
+				c.Replace(&ast.ParenExpr{X: &ast.StarExpr{X: hook(fn, &ast.UnaryExpr{Op: token.AND, X: n}, r.site(n.Pos(), "element of "+exprName(n.X)))}})
+				return true
+			}
 			if _, isMap := t.Underlying().(*types.Map); !isMap {
 				return true
 			}
